@@ -120,6 +120,30 @@ def rules(ck, P):
             why = "name=%s sources=%s properties=%s" % (n_ok, s_ok, p_ok)
         ck.check(okn, "R-NODE", nb["q"], "the node carries the parsed identifier, every parsed property (repeated keys appended) and the parsed sources",
                  "node construction does not use what was parsed (%s)" % why, ir.loc(nb))
+        # R-GRAMMAR: parameters of one operation are separated by MANDATORY whitespace (`a="x"b="y"` is outside the syntax)
+        def refs(e, suffix):
+            return ir.contains(e, lambda y: y.get("k") in ("path", "call") and (y.get("q") or "").endswith(suffix))
+
+        def is_fn(e, suffix):
+            e = ir.strip(e)
+            return e is not None and e.get("k") in ("path", "call") and (e.get("q") or "").split("<")[0].endswith(suffix)
+        reps = [y for y in ir.walk_nodes(nb["body"]) if y.get("k") == "call" and (y.get("q") or "").rsplit("::", 1)[-1].split("<")[0] in
+                ("separated_list0", "separated_list1", "many0", "many1", "many_till", "fold_many0", "fold_many1", "many_m_n") and refs(y, "parse_property")]
+        oksep = len(reps) == 1
+        whys = "%d repetition combinators over parse_property" % len(reps)
+        if oksep:
+            r = reps[0]
+            nm = (r.get("q") or "").rsplit("::", 1)[-1].split("<")[0]
+            if nm.startswith("separated_list"):
+                oksep = is_fn(r["a"][0], "multispace1") and refs(r["a"][1], "parse_property")
+                whys = "separator is `%s`" % (ir.strip(r["a"][0]).get("q") or ir.place_str(r["a"][0])).rsplit("::", 1)[-1]
+            else:
+                inner = ir.strip(r["a"][0])
+                iq = (inner.get("q") or "").rsplit("::", 1)[-1].split("<")[0] if inner is not None else ""
+                oksep = inner is not None and inner.get("k") == "call" and ((iq == "preceded" and is_fn(inner["a"][0], "multispace1")) or (iq == "terminated" and is_fn(inner["a"][1], "multispace1")))
+                whys = "%s(%s(..)) without mandatory whitespace" % (nm, iq)
+        ck.check(oksep, "R-NODE", nb["q"] + "|parameter-separator", "consecutive parameters are separated by mandatory whitespace (multispace1)",
+                 "parameters of a node need no whitespace between them (%s): text such as `min=\"1\"max=\"3\"` outside the syntax is accepted" % whys, ir.loc(nb))
     pp = [x for x in P.bodies if x["q"].endswith("vpl::parser::parse_pipeline")]
     if pp:
         okp = ir.contains(pp[0]["body"], lambda y: (y.get("k") == "path" and (y.get("q") or "").endswith("VPLPipeline::new")) or (y.get("k") == "call" and (y.get("q") or "").endswith("VPLPipeline::new"))) and \
